@@ -170,8 +170,8 @@ def main():
                             first_flags.append({"op": s["name"] + " " + " ".join(sub(s["scenario"])[1:]), "go": l[:6000], "lean": "(scenario: no model line)"})
                 if rc != 0 and not (rc == 66 and any(" VIOL" in l for l in lines)):
                     broken.append({"kind": "scenario-crash", "what": "%s exited with %d: %s" % (s["name"], rc, err)})
-                if not lines:
-                    broken.append({"kind": "scenario-empty", "what": s["name"] + " printed nothing"})
+                if not lines or any(re.search(r" summary runs=0( |$)", l) for l in lines):
+                    broken.append({"kind": "scenario-empty", "what": s["name"] + " executed no run"})
                 continue
             gen, go, lean, stats = stream_cmds(s, prop, seed, tier, workdir)
             st = lib.run_stream(s["name"], gen, go, lean, workdir)
